@@ -15,7 +15,7 @@ def job(label):
     meta = json.load(open('/verif/seeded/%s/meta.json' % label))
     pids = [meta['property']] if own else ALL
     return label, meta, scratch.with_change('patch', '/verif/seeded/%s/patch.diff' % label, pids)
-with ThreadPoolExecutor(max_workers=8) as ex:
+with ThreadPoolExecutor(max_workers=int(os.environ.get("CQV_JOBS", "8"))) as ex:
     res = list(ex.map(job, seeds))
 for label, meta, r in res:
     if 'error' in r:
